@@ -256,6 +256,15 @@ fn exec_t<T: Sc, F: Factory<T>>(sc: &Scenario) -> RunReport {
             rep.eat(s.resid.is_some() as u64);
             if s.resid.is_none() {
                 rep.probe("state_rejected_cache_empty");
+                let alpha: Vec<T> = s.params.iter().map(|b| T::of_bits(*b)).collect();
+                let w = &r.world;
+                if alpha.len() == w.p() {
+                    let pw = crate::refmath::phi_w::<T>(&w.spec, &w.x, w.w.as_ref(), &alpha);
+                    if pw.iter().all(|v| v.f().is_finite()) && sc.faults.is_empty() {
+                        // finite basis, no injected fault: the library rejected the decomposition
+                        rep.probe("cache_emptied_by_rejected_decomposition");
+                    }
+                }
             }
         }
         if let Extra::Fit(f) = &st.extra {
